@@ -563,10 +563,22 @@ func ruleWriteToStartsFresh(c *Check, p *Program, rule string) {
 			return
 		}
 		f := staticCallee(ci)
-		if f == nil || !inModule(f) || recvTypeName(f) != "Reader" || shortFn(f) == "Reader.init" {
+		if f == nil {
+			// a function literal of WriteTo called through its variable
+			if mc, isMC := ci.Common().Value.(*ssa.MakeClosure); isMC {
+				f, _ = mc.Fn.(*ssa.Function)
+			}
+		}
+		if f == nil || !inModule(f) || shortFn(f) == "Reader.init" || !(recvTypeName(f) == "Reader" || f.Parent() == fn) {
 			return
 		}
-		if f == readFn || (readFn != nil && reachesFn(f, readFn)) || fetchesIn(f) {
+		hit := f == readFn || (readFn != nil && reachesFn(f, readFn))
+		for _, g := range withAnon(f) {
+			if fetchesIn(g) {
+				hit = true
+			}
+		}
+		if hit {
 			sites = append(sites, in)
 		}
 	})
@@ -578,6 +590,19 @@ func ruleWriteToStartsFresh(c *Check, p *Program, rule string) {
 	for _, in := range sites {
 		c.Sites++
 		if sv == nil {
+			// the dispatch may have been delegated to a method that looks at the state word for WriteTo: which states it
+			// lets through is a fact about that method's results, which this rule does not relate to its callers
+			delegated := ""
+			for _, cj := range callsIn(fn) {
+				h := staticCallee(cj)
+				if h != nil && inModule(h) && recvTypeName(h) == "Reader" && shortFn(h) != "Reader.init" && stateLoadOf(h) != nil && (cj.Block() == in.Block() || cj.Block().Dominates(in.Block())) {
+					delegated = shortFn(h)
+				}
+			}
+			if delegated != "" {
+				c.Cond(true, rule, key, p.InstrPos(in), desc, "the state dispatch is delegated to "+delegated+": not judged here", "")
+				continue
+			}
 			c.Fail(rule, key, p.InstrPos(in), desc, "WriteTo fetches blocks without looking at the state word")
 			continue
 		}
